@@ -76,6 +76,17 @@ pub fn campaigns(ctx: &Ctx) -> Stats {
         let cfg2 = cfg.clone();
         st.merge(ctx.run_prop(name, total / 2, move || recipe_strategy(len), move |r| Some(HistCase { oracle: "c01".into(), hist: elaborate(&cfg2, r) })));
     }
+    // fewer steps, larger dimensions
+    {
+        let mut cfg = GenCfg::programs(false);
+        cfg.max_steps = t.pick(8, 14);
+        cfg.max_size = t.pick(7, 11);
+        cfg.max_rank = 3;
+        cfg.max_elems = t.pick(400, 1400);
+        cfg.dir_budget = 6000;
+        let cfg2 = cfg.clone();
+        st.merge(ctx.run_prop("wide-programs", total / 8, move || recipe_strategy(8), move |r| Some(HistCase { oracle: "c01".into(), hist: elaborate(&cfg2, r) })));
+    }
     let depths: Vec<usize> = t.pick(vec![1, 2, 3, 5, 8, 13, 21, 34, 64], vec![1, 2, 3, 5, 8, 13, 21, 34, 64, 128, 256]);
     let nd = depths.len() as u64;
     st.merge(ctx.run_indexed("deep-chains", nd * 4 * 3, None, |i| {
